@@ -15,7 +15,10 @@ The bring-up is observed by the ghost automaton `s` of a slot (`Lemmas/Dp.lean`:
   ParameterError / ConfigError — and back to S1 whenever the master sends Set_Prm again (the
   peripheral is asked to be re-parameterised).
 `bringUp_step` says these are the only upward moves.  Theorems are stated for every state satisfying
-the invariants, which every state reached by a contract history does (`reachable`).
+the invariants, which every state reached by a contract history does (`reachable`) — histories may
+contain `reset_address()` calls at any point; the bookkeeping invariants `Inv8` / `Inv3` are
+established for histories in which no reset hits the peripheral whose request is in flight or whose
+event is uncollected (`tainted = false`); `never_panics` holds for all.
 -/
 import ProfiVerif.Lemmas.Dp03
 
@@ -24,20 +27,24 @@ open PV PV.Dp
 
 theorem reachable {fp : FdlParams} (hfp : FpOk fp) {slots : List (Option Peripheral)}
     (hinit : InitOk fp slots) (gr : Bool) (ops : List Op) :
-    ∀ {g : G}, grun fp (G.init slots gr) ops = .ok g → Inv fp g ∧ Inv8 g ∧ Inv3 g := by
-  suffices H : ∀ (ops : List Op) (g0 : G), Inv fp g0 → Inv8 g0 → Inv3 g0 →
-      ∀ g, grun fp g0 ops = .ok g → Inv fp g ∧ Inv8 g ∧ Inv3 g by
-    intro g h; exact H ops _ (inv_init hinit gr) (inv8_init hinit gr) (inv3_init hinit gr) g h
+    ∀ {g : G}, grun fp (G.init slots gr) ops = .ok g → Inv fp g ∧ (g.tainted = false → Inv8 g ∧ Inv3 g) := by
+  suffices H : ∀ (ops : List Op) (g0 : G), Inv fp g0 → (g0.tainted = false → Inv8 g0 ∧ Inv3 g0) →
+      ∀ g, grun fp g0 ops = .ok g → Inv fp g ∧ (g.tainted = false → Inv8 g ∧ Inv3 g) by
+    intro g h
+    exact H ops _ (inv_init hinit gr) (fun _ => ⟨inv8_init hinit gr, inv3_init hinit gr⟩) g h
   intro ops
   induction ops with
-  | nil => intro g0 h1 h2 h3 g h; simp only [grun, Res3.ok.injEq] at h; subst h; exact ⟨h1, h2, h3⟩
+  | nil => intro g0 h1 h2 g h; simp only [grun, Res3.ok.injEq] at h; subst h; exact ⟨h1, h2⟩
   | cons op ops ih =>
-    intro g0 h1 h2 h3 g h
+    intro g0 h1 h2 g h
     simp only [grun] at h
     cases hs : gstep fp g0 op with
     | ok g1 =>
       rw [hs] at h
-      exact ih g1 (inv_step hfp h1 op hs) (inv8_step hfp h1 h2 op hs) (inv3_step hfp h1 h2 h3 op hs) g h
+      refine ih g1 (inv_step hfp h1 op hs) ?_ g h
+      intro hu
+      obtain ⟨h8, h3⟩ := h2 (tainted_mono op hs hu)
+      exact ⟨inv8_step hfp h1 h8 op hs hu, inv3_step hfp h1 h8 h3 op hs hu⟩
     | panic => rw [hs] at h; cases h
     | hang => rw [hs] at h; cases h
     | refused => rw [hs] at h; cases h
